@@ -403,6 +403,8 @@ impl<'a> EntryScanner<'a> {
                         last_class, class,
                     ));
                 }
+                // This is now the last explicitly stated class.
+                self.zonefile.last_class = Some(class);
                 class
             }
 
